@@ -125,6 +125,11 @@ func (r *rversion) String() string {
 type tflush struct {
 	// OldTag is the tag to wait on.
 	OldTag tag
+
+	// wait is set by the server when the flush is received: it is closed
+	// when the request to wait for finishes, and nil if there is none. It
+	// is not part of the wire format.
+	wait <-chan struct{}
 }
 
 // decode implements encoder.decode.
